@@ -8,12 +8,40 @@
 //! `ADSB_VERIF_LOG` with a global sequence number and the virtual time.
 
 use std::io;
+use std::sync::atomic::{AtomicU64, Ordering};
 use std::sync::Mutex;
 use std::time::{Duration, SystemTime};
 
 use simcore::kproto::{KChild, KEv, KOutcome};
 
 pub const BASE_EPOCH_S: u64 = 1_700_000_000;
+/// what the monotonic clocks read at virtual time 0
+pub const MONO_BASE_S: u64 = 100_000;
+
+/// The virtual time, readable without the simulator lock (the clock seam below is called from
+/// anywhere, also from inside a seam call).
+static NOW_US: AtomicU64 = AtomicU64::new(0);
+
+/// Clock seam of the whole child process: every `Instant::now()` / `SystemTime::now()` of the
+/// client and of its dependencies (std calls the C library's `clock_gettime`; this definition in
+/// the executable takes precedence over the one in libc.so) reads the simulator's virtual clock.
+/// A timer the client adds with `std::time` is therefore driven by the scenario like every other
+/// deadline, and no run depends on how long the host took. CPU-time clocks are passed through.
+#[no_mangle]
+pub unsafe extern "C" fn clock_gettime(clk: libc::clockid_t, ts: *mut libc::timespec) -> libc::c_int {
+    let us = NOW_US.load(Ordering::SeqCst);
+    let base_s = match clk {
+        libc::CLOCK_REALTIME | libc::CLOCK_REALTIME_COARSE | libc::CLOCK_TAI => BASE_EPOCH_S,
+        libc::CLOCK_MONOTONIC | libc::CLOCK_MONOTONIC_RAW | libc::CLOCK_MONOTONIC_COARSE | libc::CLOCK_BOOTTIME => MONO_BASE_S,
+        _ => return libc::syscall(libc::SYS_clock_gettime, clk, ts) as libc::c_int,
+    };
+    if ts.is_null() {
+        return -1;
+    }
+    (*ts).tv_sec = (base_s + us / 1_000_000) as libc::time_t;
+    (*ts).tv_nsec = ((us % 1_000_000) * 1_000) as libc::c_long;
+    0
+}
 
 struct Session {
     idx: usize,
@@ -109,6 +137,7 @@ fn with_sim<T>(f: impl FnOnce(&mut Sim) -> T) -> T {
 
 impl Sim {
     fn publish_clock(&self) {
+        NOW_US.store(self.now_us, Ordering::SeqCst);
         rsadsb_common::verif_clock::set(SystemTime::UNIX_EPOCH + Duration::from_secs(BASE_EPOCH_S) + Duration::from_micros(self.now_us));
     }
 
